@@ -424,12 +424,18 @@ package semver
 // equal ends with an open flag give the empty span.
 //@ func newSpan
 //@   requires min != nil && max != nil
+//@   abstract (*Version).Canon
 //@   ensures imp(result1 == nil, result0.rank == empty || result0.rank == unit || result0.rank == vector)
 //@   ensures imp(result1 == nil && result0.rank == unit, !result0.minOpen && !result0.maxOpen && result0.min == result0.max &&
 //@           result0.min != nil && compare(result0.min, max) == 0 && !minOpen && !maxOpen)
 //@   ensures imp(result1 == nil && result0.rank == vector, result0.minOpen == minOpen && result0.maxOpen == maxOpen &&
 //@           result0.min != nil && result0.max == max && compare(result0.min, result0.max) < 0)
 //@   ensures imp(result1 == nil && result0.rank == empty, (minOpen || maxOpen))
+//@   ensures imp(old(noMarker(min, wildcard)) && old(noMarker(max, wildcard)) && result1 == nil, touches(&min.build, &max.build))
+//@   ensures imp(old(noMarker(min, wildcard)) && old(noMarker(max, wildcard)) && result1 == nil, compare(min, max) <= 0)
+//@   ensures imp(old(noMarker(min, wildcard)) && old(noMarker(max, wildcard)) && result1 == nil,
+//@           result0.rank == ite(compare(min, max) < 0, vector, ite(minOpen || maxOpen, empty, unit)) &&
+//@           imp(result0.rank != empty, result0.min == min))
 //@   property C09
 
 // ---------------------------------------------------------------------------
@@ -562,6 +568,22 @@ package semver
 //@   property C09
 //@   export
 
+// Three-number versions compare by their numbers, first difference deciding;
+// with equal numbers a prerelease is below the release (used where compare
+// is referenced by symbol, C03).
+//@ pred lexLess3(a *Version, b *Version) = a.num[0] < b.num[0] || (a.num[0] == b.num[0] && (a.num[1] < b.num[1] || (a.num[1] == b.num[1] && a.num[2] < b.num[2])))
+//@ pred lexEq3(a *Version, b *Version) = a.num[0] == b.num[0] && a.num[1] == b.num[1] && a.num[2] == b.num[2]
+//@ lemma compare.plain.nums3
+//@   vars a, b *Version
+//@   unfold compare
+//@   requires plain(a) && plain(b) && sameSys(a, b) && len(a.num) == 3 && len(b.num) == 3
+//@   ensures imp(lexLess3(a, b), compare(a, b) < 0)
+//@   ensures imp(lexEq3(a, b) && len(a.pre) == 0 && len(b.pre) == 0, compare(a, b) == 0)
+//@   ensures imp(lexEq3(a, b) && len(a.pre) > 0 && len(b.pre) == 0, compare(a, b) < 0)
+//@   pattern compare(a, b)
+//@   property C03
+//@   export
+
 // Set.Intersect, at the point where the bounds of the overlap have been
 // chosen: an arbitrary version v of the same system lies in both spans (under
 // interval matching) exactly when it lies between the chosen bounds.
@@ -574,3 +596,100 @@ package semver
 //@   assert at "span, err := newSpan(min, minOpen, max, maxOpen)": imp(okSpan(selem) && okSpan(telem) && sameSys(selem.min, telem.min) && plain(arb(v, "*Version")) && sameSys(arb(v, "*Version"), selem.min),
 //@          iff(selem.contains(arb(v, "*Version"), true) && telem.contains(arb(v, "*Version"), true), between(min, minOpen, max, maxOpen, arb(v, "*Version"))))
 //@   property C09
+
+// ---------------------------------------------------------------------------
+// C03 (partial): how an operator and a version become a span
+// (opVersionToSpan), for three-number versions without prerelease, wildcard
+// or extension. The expected bounds are taken from the range grammars of
+// node-semver (README, "Ranges") and Cargo ("Specifying Dependencies"):
+//   ^M.m.p := >=M.m.p <(M+1).0.0-0   (M > 0)     here [M.m.p, M.∞.∞]
+//   ^0.m.p := >=0.m.p <0.(m+1).0-0   (m > 0)     here [0.m.p, 0.m.∞]
+//   ^0.0.p := >=0.0.p <0.0.(p+1)-0               here exactly 0.0.p
+//   ~M.m.p := >=M.m.p <M.(m+1).0-0               here [M.m.p, M.m.∞]
+//   >=V, <=V, <V, >V, =V, V as written
+// ∞ stands for a number above every real version number, so "at most M.∞.∞"
+// is "below (M+1).0.0-0" for every version the reference accepts.
+
+// setTail leaves a three-number version without the marker untouched; so it
+// does one in which every number after a marker is the marker already, when
+// the fill value is the marker itself. (Stated for exactly three numbers, which
+// keeps the conditions free of quantifiers.)
+//@ pred noMarker(v *Version, marker value) = len(v.num) == 3 && v.num[0] != marker && v.num[1] != marker && v.num[2] != marker
+//@ pred tailClosed(v *Version, m value) = len(v.num) == 3 && imp(v.num[0] == m, v.num[1] == m) && imp(v.num[1] == m, v.num[2] == m)
+//@ func (*Version).setTail
+//@   requires v != nil
+//@   ensures imp(old(noMarker(v, marker)), touches())
+//@   ensures imp(old(marker == fill) && old(tailClosed(v, marker)), touches())
+//@   loop 0
+//@     invariant 0 <= i && forall(k, 0, i, v.getNum(k) != marker)
+//@   loop 1
+//@     invariant imp(old(noMarker(v, marker)), i >= n && touches())
+//@     invariant imp(old(marker == fill) && old(tailClosed(v, marker)),
+//@               touches() && n == len(v.num) && 0 <= i && (i >= n || v.num[i] == marker))
+//@   property C03
+
+// all: every number equals val.
+//@ func (*Version).all
+//@   requires v != nil
+//@   pure
+//@   ensures result == forall(k, 0, len(v.num), v.num[k] == val)
+//@   loop 0
+//@     invariant forall(k, 0, rangeidx + 1, v.num[k] == val)
+//@   property C03
+
+// Three numbers, none of them a wildcard or ∞.
+//@ pred okNums3(v *Version) = len(v.num) == 3 && 0 <= v.num[0] && v.num[0] < infinity && 0 <= v.num[1] && v.num[1] < infinity && 0 <= v.num[2] && v.num[2] < infinity
+
+// inc on such a version without prerelease steps the last number.
+//@ func (*Version).inc
+//@   requires v != nil
+//@   ensures imp(old(okNums3(v)) && old(len(v.pre) == 0), result == nil && touches(v.num))
+//@   ensures imp(old(okNums3(v)) && old(len(v.pre) == 0), v.num[0] == old(v.num[0]) && v.num[1] == old(v.num[1]) && v.num[2] == old(v.num[2]) + 1)
+//@   property C03
+
+// MinVersion of a semver-like system rewrites its argument into 0.0.0-0.
+//@ func System.MinVersion
+//@   requires v != nil
+//@   ensures result != nil
+//@   ensures imp(old(sys != Maven && sys != PyPI && sys != RubyGems), result == v && touches(v))
+//@   ensures imp(old(sys != Maven && sys != PyPI && sys != RubyGems), len(v.num) == 3 && backed(v.num, &v.buf) && v.num[0] == 0 && v.num[1] == 0 && v.num[2] == 0 &&
+//@           v.ext == nil && v.sys == old(v.sys) && v.build == "" && len(v.pre) == 1 && !v.isPrerelease)
+//@   loop 0
+//@     invariant loopframe(v) && forall(k, 0, rangeidx + 1, v.buf[k] == 0)
+//@   property C03
+
+// A three-number version without prerelease, wildcard, ∞ or extension, in a
+// system whose ranges follow node-semver / Cargo.
+//@ pred simple3(v *Version) = v != nil && v.ext == nil && okNums3(v) && backed(v.num, &v.buf) && len(v.pre) == 0 &&
+//@      (v.sys == NPM || v.sys == Cargo || v.sys == DefaultSystem)
+//@ pred nums3(v *Version, a value, b value, c value) = v != nil && len(v.num) == 3 && v.num[0] == a && v.num[1] == b && v.num[2] == c
+//@ pred bounds(sp span, loOpen bool, hiOpen bool) = sp.minOpen == loOpen && sp.maxOpen == hiOpen && sp.min != nil && sp.max != nil
+
+//@ func opVersionToSpan ~simple3
+//@   requires simple3(lo)
+//@   prune
+//@   abstract (*Version).rebuildExtension
+//@   uses compare.plain.nums3 compare.plain.laws
+//@   ensures imp((typ == tokEmpty || typ == tokEqual) && result1 == nil,
+//@           result0.rank == unit && nums3(result0.min, old(lo.num[0]), old(lo.num[1]), old(lo.num[2])) && len(result0.min.pre) == 0)
+//@   ensures imp(typ == tokGreater && result1 == nil, result0.rank == vector && bounds(result0, false, false) &&
+//@           nums3(result0.min, old(lo.num[0]), old(lo.num[1]), old(lo.num[2]) + 1) && len(result0.min.pre) == 0 && nums3(result0.max, infinity, infinity, infinity))
+//@   ensures imp(typ == tokGreaterEqual && result1 == nil, result0.rank == vector && bounds(result0, false, false) &&
+//@           nums3(result0.min, old(lo.num[0]), old(lo.num[1]), old(lo.num[2])) && len(result0.min.pre) == 0 && nums3(result0.max, infinity, infinity, infinity))
+//@   ensures imp(typ == tokLess && !(old(lo.num[0]) == 0 && old(lo.num[1]) == 0 && old(lo.num[2]) == 0) && result1 == nil, result0.rank == vector && bounds(result0, false, true) &&
+//@           nums3(result0.min, 0, 0, 0) && len(result0.min.pre) == 1 && nums3(result0.max, old(lo.num[0]), old(lo.num[1]), old(lo.num[2])) && len(result0.max.pre) == 0)
+//@   ensures imp(typ == tokLessEqual && result1 == nil, result0.rank == vector && bounds(result0, false, false) &&
+//@           nums3(result0.min, 0, 0, 0) && len(result0.min.pre) == 1 && nums3(result0.max, old(lo.num[0]), old(lo.num[1]), old(lo.num[2])) && len(result0.max.pre) == 0)
+//@   ensures imp(typ == tokCaret && old(lo.num[0]) > 0 && result1 == nil, result0.rank == vector && bounds(result0, false, false) &&
+//@           nums3(result0.min, old(lo.num[0]), old(lo.num[1]), old(lo.num[2])) && len(result0.min.pre) == 0 && nums3(result0.max, old(lo.num[0]), infinity, infinity))
+//@   ensures imp(typ == tokCaret && old(lo.num[0]) == 0 && old(lo.num[1]) > 0 && result1 == nil, result0.rank == vector && bounds(result0, false, false) &&
+//@           nums3(result0.min, 0, old(lo.num[1]), old(lo.num[2])) && len(result0.min.pre) == 0 && nums3(result0.max, 0, old(lo.num[1]), infinity))
+//@   ensures imp(typ == tokCaret && old(lo.num[0]) == 0 && old(lo.num[1]) == 0 && result1 == nil, result0.rank == unit &&
+//@           nums3(result0.min, 0, 0, old(lo.num[2])) && len(result0.min.pre) == 0 && nums3(result0.max, 0, 0, old(lo.num[2])) && len(result0.max.pre) == 0)
+//@   ensures imp(typ == tokTilde && result1 == nil, result0.rank == vector && bounds(result0, false, false) &&
+//@           nums3(result0.min, old(lo.num[0]), old(lo.num[1]), old(lo.num[2])) && len(result0.min.pre) == 0 && nums3(result0.max, old(lo.num[0]), old(lo.num[1]), infinity))
+//@   loop 0
+//@     invariant loopframe(hi.num) && forall(k, 0, rangeidx + 1, hi.num[k] == infinity)
+//@   loop 1
+//@     invariant loopframe()
+//@   property C03
